@@ -56,9 +56,10 @@ S5_RULE = ("one evaluation = one seeded run of a whole node (prime+region+zone c
 REG.update({
     "C06": {
         "level": "exploration",
-        "tests": [{"pkg": "./chainsim", "run": "TestC06", "quick": 480, "thorough": 40000, "chunk": 30}],
-        "rule": S5_RULE + "Oracle after every head change (append or reorg): multiset hash of exactly the ut+cl records in the zone db == header UTXORoot, their count == stored UTXO-set size, state opens at the header's EVM/ETX roots.",
-        "expect_probes": ["nonempty_utxo_set_checked", "reorg"],
+        "tests": [{"pkg": "./chainsim", "run": "TestC06", "quick": 480, "thorough": 40000, "chunk": 30},
+                  {"pkg": "./chainsim", "run": "TestC06Net", "quick": 200, "thorough": 15000, "chunk": 20}],
+        "rule":  "Network half (TestC06Net): a second honest node B follows A over a simulated faulty network driven by a second tape: each view (zone / region / prime) of every block A mines, on any branch, is a message that arrives in order, out of order (children before parents, dominant views before zone views), twice, is dropped, or is lost while B is partitioned; B's append-queue retry is a scheduled step; B's coordinator follows A's head as far as B has the blocks. When A's tape ends the faults stop, what B lacks is re-sent newest-first, and within 4 re-send rounds B must hold A's canonical line and be able to take A's head (follower-converges) - i.e. B re-executes every canonical block to the commitments A put in the header; no delivery may make B panic (follower-panic)." + S5_RULE + "Oracle after every head change (append or reorg): multiset hash of exactly the ut+cl records in the zone db == header UTXORoot, their count == stored UTXO-set size, state opens at the header's EVM/ETX roots.",
+        "expect_probes": ["nonempty_utxo_set_checked", "reorg", "net.deliver-reordered", "net.deliver-duplicate", "net.dropped", "net.partition", "net.followers_caught_up"],
         "components": S5_COMPONENTS,
         "assumptions": ["single slice (expansion 0); KawPow/AuxPoW regime off", "process-determinism across engines/nodes is decided by C10/C01 cross-node comparisons, not here"],
     },
@@ -75,9 +76,10 @@ REG.update({
     },
     "C10": {
         "level": "exploration",
-        "tests": [{"pkg": "./chainsim", "run": "TestC10", "quick": 320, "thorough": 30000, "chunk": 20}],
-        "rule": S5_RULE + "Oracle (refinement against a fresh node): after the first two head switches of a run and at its end, the ut / cl / address-index records (index compared as a set per address), canonical number->hash mapping and head pointers of the reorganised node equal those of a second node that was only ever fed the winning branch.",
-        "expect_probes": ["reorg"],
+        "tests": [{"pkg": "./chainsim", "run": "TestC10", "quick": 320, "thorough": 30000, "chunk": 20},
+                  {"pkg": "./chainsim", "run": "TestC10Net", "quick": 200, "thorough": 15000, "chunk": 20}],
+        "rule":  "Network half (TestC10Net): a second honest node B follows A over a simulated faulty network driven by a second tape: each view (zone / region / prime) of every block A mines, on any branch, is a message that arrives in order, out of order (children before parents, dominant views before zone views), twice, is dropped, or is lost while B is partitioned; B's append-queue retry is a scheduled step; B's coordinator follows A's head as far as B has the blocks. When A's tape ends the faults stop, what B lacks is re-sent newest-first, and within 4 re-send rounds B must hold A's canonical line and be able to take A's head (follower-converges), and with both nodes on that head their chain-state images (ut / cl / address index) must be equal (replicas-agree); no delivery may make B panic (follower-panic)." + S5_RULE + "Oracle (refinement against a fresh node): after the first two head switches of a run and at its end, the ut / cl / address-index records (index compared as a set per address), canonical number->hash mapping and head pointers of the reorganised node equal those of a second node that was only ever fed the winning branch.",
+        "expect_probes": ["reorg", "net.deliver-reordered", "net.deliver-duplicate", "net.dropped", "net.partition", "net.followers_caught_up"],
         "components": S5_COMPONENTS,
         "assumptions": ["hash-keyed records (trie nodes) that happen to start with a scanned prefix are excluded from the image"],
     },
@@ -137,12 +139,13 @@ REG.update({
     },
     "C04": {
         "level": "exploration",
-        "tests": [{"pkg": "./chainsim", "run": "TestC04", "quick": 400, "thorough": 30000, "chunk": 25}],
-        "rule": S5_RULE + ("Oracle over the recorded history (evaluated on the canonical line after reorgs, every 6th head change and at the end): a FIFO model of the destination queue fed by what the dominant chain delivered with each coincident block "
+        "tests": [{"pkg": "./chainsim", "run": "TestC04", "quick": 400, "thorough": 30000, "chunk": 25},
+                  {"pkg": "./chainsim", "run": "TestC04Net", "quick": 200, "thorough": 15000, "chunk": 20}],
+        "rule":  "Network half (TestC04Net): a second honest node B follows A over a simulated faulty network driven by a second tape: each view (zone / region / prime) of every block A mines, on any branch, is a message that arrives in order, out of order (children before parents, dominant views before zone views), twice, is dropped, or is lost while B is partitioned; B's append-queue retry is a scheduled step; B's coordinator follows A's head as far as B has the blocks. When A's tape ends the faults stop, what B lacks is re-sent newest-first, and within 4 re-send rounds B must hold A's canonical line and be able to take A's head (follower-converges), and the ETX history oracle below is evaluated on B's database; no delivery may make B panic (follower-panic)." + S5_RULE + ("Oracle over the recorded history (evaluated on the canonical line after reorgs, every 6th head change and at the end): a FIFO model of the destination queue fed by what the dominant chain delivered with each coincident block "
                  "(rawdb inbound-ETX records) - every executed inbound ETX must be the next queue item; every delivered ETX corresponds to exactly one ETX emitted earlier on the same canonical chain (key = originating tx hash + index), is delivered once, "
                  "and is identical to the emitted one except for the value of conversions; every ETX followed by >=3 prime blocks and 3 more zone blocks has been executed. ETX kinds exercised: coinbase (Quai and Qi), Quai->Qi conversion. "
                  "Fault 'forged pending ETXs': for half of the mined blocks a peer that saw the sealed block first pushes a batch of pending ETXs for it (emptied, truncated, one value altered, one duplicated) at the region and prime chains before the node processes the block; every such batch must be refused and must not shadow the genuine one."),
-        "expect_probes": ["reorg", "forged_pending_etxs_emptied", "forged_pending_etxs_altered"],
+        "expect_probes": ["reorg", "forged_pending_etxs_emptied", "forged_pending_etxs_altered", "net.deliver-reordered", "net.deliver-duplicate", "net.dropped", "net.partition", "net.followers_caught_up"],
         "components": S5_COMPONENTS,
         "assumptions": ["single slice (expansion 0): all ETXs are zone 0-0 -> prime -> zone 0-0; cross-zone delivery, region-level coincidence and delivery to 'another zone' are NOT exercised",
                         "byzantine destination blocks with permuted/duplicated/unknown inbound ETXs are covered only through the C07 body-mutation rows (drop/swap/duplicate a transaction)",
